@@ -88,6 +88,9 @@ def sym_mesh(E, ndim, prefix='m', nsub=0, bc='', assume=None, dims=None, units=N
     n = [inp(E, f'{prefix}_n{j}', 'int', True) for j in range(ndim)]
     for c, k in zip(cell, n):
         assume += [R(c) > 0, I(k) >= 1]
+        # redundant consequence of the two facts above, stated for the solver (nonlinear int*real): n*c >= c.
+        # (k-1)*c >= 0 is a product of two non-negative numbers; checked as a lemma by tools/selfcheck_hints.py
+        assume.append(R(k) * R(c) >= R(c))
     pmax = [E.arith('+', p, E.arith('*', k, c)) for p, k, c in zip(pmin, n, cell)]
     if tf is None:
         tf = inp(E, f'{prefix}_tf', 'float')
